@@ -561,6 +561,40 @@ PROPS["C01"]["required"] += ["SqlVerif.Props.C01Ddl.ddl_norm_invariant", "SqlVer
                              "SqlVerif.Props.C01Ddl.view_prefix_fixpoint"]
 PROPS["C01"]["level_text"] += " Second statement fragment (Model/Ddl.lean + Model/DdlPrint.lean: CREATE VIEW, CREATE INDEX, ALTER TABLE with ADD / DROP / RENAME / ALTER COLUMN operations, TRUNCATE, DROP <kind>, and through the dispatcher every statement of the first fragment; tied by stream ddl, see C11/C05): the same three theorems, for EVERY configuration record, fuel, limit and token list - (ddl_norm_invariant) the parser respects the image qc when the column types of ADD are keyword types and view columns carry no data type; (ddl_printer_emits_normal_forms) the printed tokens are the consumed ones up to qc; (ddl_reparse_fixpoint_partial, _sub, ddl_script_fixpoint_partial for scripts mixing both fragments) an accepted statement that is printableQ, of normal shape and lexer-like re-parses from its printed tokens, with the SAME fuel and limit, to s.norm, which has the S-expression of s. normal excludes what Display re-writes here (TEMP for TEMPORARY, a `()` view column list, trailing commas, TEMP of CREATE TEMP INDEX, DROP / RENAME / ALTER without COLUMN, keywords swallowed by DROP, IF NOT EXISTS of ADD dropped or moved); one instance of each is decided by kernel evaluation to re-parse to exactly s.norm (rewritten_ddl_shapes_reparse_to_norm, with ddl_fixpoint_after_one_step for the fixpoint from the first print on). A counterexample found with this model - `CREATE TEMPORARY MATERIALIZED VIEW v AS SELECT 1` printed `CREATE MATERIALIZED TEMPORARY VIEW ...`, which the parser rejects - was repaired in /repo with a fix: commit and is kept as the positive kernel-checked witness view_prefix_fixpoint; no statement of this fragment is left whose AST is not a fixpoint."
 
+# ---- third statement fragment (Model/Tcl.lean + TclPrint.lean, stream `tcl`): transaction control (START TRANSACTION / BEGIN / COMMIT / END / ROLLBACK / SAVEPOINT / RELEASE), SET ..., USE / DISCARD / DEALLOCATE / CLOSE / ASSERT, extends the Ddl fragment
+PROPS["C11"]["lean"].append("SqlVerif.Props.C11Tcl")
+PROPS["C11"]["namespaces"].append("SqlVerif.Props.C11Tcl")
+PROPS["C11"]["required"] += ["SqlVerif.Props.C11Tcl.tcl_yield", "SqlVerif.Props.C11Tcl.tcl_semi",
+                             "SqlVerif.Props.C11Tcl.tcl_local", "SqlVerif.Props.C11Tcl.script_concat_tcl",
+                             "SqlVerif.Props.C11Tcl.tcl_extends_ddl", "SqlVerif.Props.C11Tcl.end_is_commit"]
+PROPS["C11"]["corr"].append("tcl")
+PROPS["C11"]["unique_output"]["tcl"] = False
+PROPS["C11"]["level_text"] += " A third statement fragment extends the second (Model/Tcl.lean: parse_start_transaction, parse_begin with the SQLite modifiers under supports_start_transaction_modifier, parse_commit / parse_end, parse_rollback with parse_commit_rollback_chain and parse_rollback_savepoint, parse_savepoint, parse_release, the ad-hoc loop of parse_transaction_modes, parse_set with its modifiers - ROLE, variable and parenthesised-tuple assignments, TIME ZONE, NAMES, TRANSACTION, SESSION CHARACTERISTICS -, parse_use with the dialect keywords, parse_discard, parse_deallocate, parse_close, parse_assert, everything else handed to the second statement model; tied to the real parse_statements by stream tcl, 13 dialects, both option values): tcl_yield, tcl_local and script_concat_tcl (scripts mixing all three fragments; a lone END at top level is the statement COMMIT, end_is_commit, since the statements loop no longer stops at END), with tcl_extends_ddl (the statements of the first two fragments keep their trees)."
+
+PROPS["C13"]["lean"].append("SqlVerif.Props.C13Tcl")
+PROPS["C13"]["namespaces"].append("SqlVerif.Props.C13Tcl")
+PROPS["C13"]["required"] += ["SqlVerif.Props.C13Tcl.setValue_local", "SqlVerif.Props.C13Tcl.setTupleId_local",
+                             "SqlVerif.Props.C13Tcl.set_values_loop_is_commaSep", "SqlVerif.Props.C13Tcl.set_values_is_lists_model",
+                             "SqlVerif.Props.C13Tcl.set_tuple_is_lists_model",
+                             "SqlVerif.Props.C13Tcl.set_values_trailing_comma", "SqlVerif.Props.C13Tcl.set_values_option_inert",
+                             "SqlVerif.Props.C13Tcl.set_tuple_trailing_comma", "SqlVerif.Props.C13Tcl.set_tuple_option_inert",
+                             "SqlVerif.Props.C13Tcl.modes_comma_commits", "SqlVerif.Props.C13Tcl.modes_comma_optional",
+                             "SqlVerif.Props.C13Tcl.modes_not_comma_separated", "SqlVerif.Props.C13Tcl.modes_trailing_comma_rejected",
+                             "SqlVerif.Props.C13Tcl.modes_with_commas_witness"]
+PROPS["C13"]["level_text"] += " The third statement fragment (Model/Tcl.lean, stream tcl, run under C11/C05) has three lists of three kinds: the parenthesised variable tuple of SET is a parse_comma_separated list (set_tuple_is_lists_model, identifier elements local, trailing-comma / option-inert instances); the value list of SET is written in the real code as an ad-hoc loop around is_parse_comma_separated_end and is PROVED to be parse_comma_separated over the value parser on every input, failures included (set_values_loop_is_commaSep; setValue_local, set_values_trailing_comma, set_values_option_inert); the loop of parse_transaction_modes is proved NOT to be one: the comma is optional (modes_comma_optional; `READ ONLY READ WRITE` gives two modes where the list model stops after one, modes_not_comma_separated) and a consumed comma commits the loop to a further mode for every fuel and token list, whatever trailing_commas says - the function never reads the option (modes_comma_commits; `START TRANSACTION READ ONLY,` is rejected with the option on where `SET a = 1,` is accepted, modes_trailing_comma_rejected)."
+
+PROPS["C05"]["lean"].append("SqlVerif.Props.C05Tcl")
+PROPS["C05"]["namespaces"].append("SqlVerif.Props.C05Tcl")
+PROPS["C05"]["required"] += ["SqlVerif.Props.C05Tcl.tcl_content_preserved_partial", "SqlVerif.Props.C05Tcl.tcl_content_preserved_stmt",
+                             "SqlVerif.Props.C05Tcl.tcl_content_preserved_tx",
+                             "SqlVerif.Props.C05Tcl.set_names_uppercased", "SqlVerif.Props.C05Tcl.set_names_string_unquoted",
+                             "SqlVerif.Props.C05Tcl.set_time_zone_eq_renamed", "SqlVerif.Props.C05Tcl.set_session_dropped",
+                             "SqlVerif.Props.C05Tcl.characteristics_uppercased", "SqlVerif.Props.C05Tcl.noise_words_dropped",
+                             "SqlVerif.Props.C05Tcl.discard_temporary_renamed"]
+PROPS["C05"]["corr"].append("tcl")
+PROPS["C05"]["unique_output"]["tcl"] = False
+PROPS["C05"]["level_text"] += " The content theorem is extended to the third statement fragment (Model/Tcl.lean + TclPrint.lean: transaction control, SET ..., USE / DISCARD / DEALLOCATE / CLOSE / ASSERT; Display text tied to to_string() by stream tcl): tcl_content_preserved_partial for printable statements (the transaction-control statements, SET ROLE, USE, DISCARD, DEALLOCATE and CLOSE unconditionally, tcl_content_preserved_tx). What the printer drops or rewrites is kept as kernel-checked witnesses: noise words (TRANSACTION / WORK, AND NO CHAIN, END for COMMIT, SESSION of SET SESSION x = ..., TO for =, TIME ZONE = v printed TIMEZONE = v) are keywords only; CONTENT changes where Display writes a word that is no keyword in upper case (`set names x` prints NAMES, `characteristics` prints CHARACTERISTICS) and where SET NAMES writes its charset / collation strings raw: `SET NAMES 'utf8'` loses the quotes and `SET NAMES 'a b'` prints `SET NAMES a b`, which the parser rejects (set_names_string_unquoted)."
+
 # entries still under construction by a sub-agent are not claimed in MANIFEST.json yet
 for _hold in []:
     if _hold in PROPS:
